@@ -457,6 +457,13 @@ class DiffProperty:
         mx = build_model(self.mlname, self.driver, self.extract_vo)
         ided = ["c%d %s" % (i, c) for i, c in enumerate(cases)]
         I, e1 = run_cases(hx, ided, workdir, "impl" + tagsuffix, env=self.harness_env, args=self.harness_args)
+        # a case that ran into the per-case time limit is run once more, alone and with a long limit: a loaded machine must
+        # not look like a hang (a real hang still times out and is reported)
+        late = [l for l in ided if any(t.startswith("F:timeout") for t in (I.get("I", {}).get(l.split(None, 1)[0]) or []))]
+        if late and not self.harness_args:
+            I2, e1b = run_cases(hx, late, workdir, "implate" + tagsuffix, env=self.harness_env, args=["60"], shards=min(4, len(late)))
+            I.setdefault("I", {}).update(I2.get("I", {}))
+            e1 = e1 + e1b
         M, e2 = run_cases(mx, ided, workdir, "model" + tagsuffix)
         res = []
         for i, c in enumerate(cases):
